@@ -82,8 +82,9 @@ def normalize_point_unit(num_axes, reflect):
     return unit
 
 
-def difference_vector_unit(kind):
-    """pairing of periodicity flags with CARTESIAN components, stated per grid class"""
+def difference_vector_unit(kind, coords="cartesian"):
+    """pairing of periodicity flags with CARTESIAN components, stated per grid class; for Cartesian grids also with the
+    points given in grid or cell coordinates (position = lo + cell coordinate * dx)"""
 
     def unit(U):
         def body(it):
@@ -100,16 +101,29 @@ def difference_vector_unit(kind):
                 per[0] = False
             for a in range(num_axes):
                 it.ctx.assume(lo[a] < hi[a])
-            g = _grid_instance(it, mod, cls, {"num_axes": num_axes, "dim": dim, "axes_bounds": tuple((lo[a], hi[a]) for a in range(num_axes)), "periodic": per})
+            attrs = {"num_axes": num_axes, "dim": dim, "axes_bounds": tuple((lo[a], hi[a]) for a in range(num_axes)), "periodic": per}
+            dx = None
+            if coords != "cartesian":
+                N = [z3.Int(f"N{a}") for a in range(num_axes)]
+                dx = [(hi[a] - lo[a]) / z3.ToReal(N[a]) for a in range(num_axes)]
+                for a in range(num_axes):
+                    it.ctx.assume(N[a] >= 1)
+                attrs.update(shape=tuple(N), discretization=fresh_array("dx", (num_axes,), lambda idx: z3.If(to_z3(idx[0]) == 0, dx[0], dx[1])))
+                # contract of CartesianCoordinates: positions are their own Cartesian coordinates
+                attrs["c"] = Instance(None, {"pos_to_cart": lambda pts: pts, "pos_from_cart": lambda pts: pts}, name="CartesianCoordinates")
+            g = _grid_instance(it, mod, cls, attrs)
             p1, p2 = sym_array("p1", (dim,)), sym_array("p2", (dim,))
             a1 = [to_z3(p1.read((c,))) for c in range(dim)]
             a2 = [to_z3(p2.read((c,))) for c in range(dim)]
-            r = it.call(it.getattr(g, "difference_vector"), [p1, p2], {"coords": "cartesian"})
+            if coords == "cell":  # physical positions of the two points
+                a1 = [lo[c] + a1[c] * dx[c] for c in range(dim)]
+                a2 = [lo[c] + a2[c] * dx[c] for c in range(dim)]
+            r = it.call(it.getattr(g, "difference_vector"), [p1, p2], {"coords": coords})
             return r, a1, a2, lo, hi, per, dim
 
         for p, res in enumerate(explore_paths(U, body)):
             P = prem_of(res.ctx)
-            nm = f"difference_vector[{kind}].path{p}"
+            nm = f"difference_vector[{kind}{'' if coords == 'cartesian' else ',coords=' + coords}].path{p}"
             if res.outcome != "return":
                 U.prove(f"{nm}.returns_normally", P, z3.BoolVal(False), info={"exc": str(res.exc)})
                 continue
@@ -209,7 +223,10 @@ UNITS = [
     ("normalize_point[1d]", normalize_point_unit(1, False)),
     ("normalize_point[2d]", normalize_point_unit(2, False)),
     ("normalize_point[1d,reflect]", normalize_point_unit(1, True)),
+    ("normalize_point[2d,reflect]", normalize_point_unit(2, True)),
     ("difference_vector[cartesian2]", difference_vector_unit("cartesian2")),
+    ("difference_vector[cartesian2,coords=grid]", difference_vector_unit("cartesian2", "grid")),
+    ("difference_vector[cartesian2,coords=cell]", difference_vector_unit("cartesian2", "cell")),
     ("difference_vector[cylindrical]", difference_vector_unit("cylindrical")),
     ("lemma.wrap", lemma_wrap),
     ("transform", transform_unit),
